@@ -9,7 +9,7 @@ CD-READONLY  documented views / renderings have no write effect on state reachab
 from __future__ import annotations
 
 import ast
-from typing import Dict, List, Optional, Set
+from typing import Dict, List, Optional, Set, Tuple
 
 from ..model import Program, AnalysisError, FuncInfo, walk_local, dotted
 from ..report import RuleResult
@@ -247,5 +247,128 @@ def _fresh(v: ast.expr) -> bool:
     return isinstance(v, (ast.Dict, ast.List, ast.Set, ast.DictComp, ast.ListComp, ast.SetComp))
 
 
+def _paths(e: ast.AST, alias: Dict[str, Tuple[str, ...]], roots: Set[str]) -> Set[Tuple[str, ...]]:
+    """maximal attribute chains rooted at a parameter (through local aliases) that an expression reads"""
+    out: Set[Tuple[str, ...]] = set()
+
+    def chain(x):
+        parts = []
+        while isinstance(x, ast.Attribute):
+            parts.append(x.attr)
+            x = x.value
+        if isinstance(x, ast.Name):
+            base = alias.get(x.id, (x.id,) if x.id in roots else None)
+            if base is not None:
+                return tuple(base) + tuple(reversed(parts))
+        return None
+
+    def visit(x):
+        if isinstance(x, (ast.Attribute, ast.Name)):
+            c = chain(x)
+            if c is not None:
+                out.add(c)
+                return
+        for ch in ast.iter_child_nodes(x):
+            visit(ch)
+
+    visit(e)
+    return out
+
+
+def _eq_fields(prog: Program, f, path: Tuple[str, ...]) -> Optional[Set[str]]:
+    """When the object a key path denotes compares by some of its fields only (a hand-written __eq__), the set of those fields:
+    two equal keys may differ everywhere else. None when the object compares by identity / all fields, or its type is unknown."""
+    from .c06 import _eq_identity_grounded
+
+    if f.cls is None or not path or path[0] != f.params[0]:
+        return None
+    t = f.cls.qual
+    for a in path[1:]:
+        t = prog.field_type(t, a)
+        if t is None or t not in prog.classes:
+            return None
+    eq = prog.lookup(t, "__eq__")
+    if eq is None or _eq_identity_grounded(prog, t):
+        return None
+    out = set()
+    for root in eq.params[:2]:
+        out |= {pth[1:] for pth in _paths(eq.node, {}, {root}) if pth[0] == root and len(pth) > 1}
+    return out
+
+
+def _memo_findings(fn_node: ast.FunctionDef, tables: Set[str], eq_fields=lambda path: None):
+    """hand-rolled memo stores TABLE[key] = value in one function: (store node, key paths, read paths the key does not determine)"""
+    a = fn_node.args
+    roots = {x.arg for x in a.posonlyargs + a.args + a.kwonlyargs}
+    alias: Dict[str, Tuple[str, ...]] = {}
+    body_nodes = [n for n in ast.walk(fn_node)]
+    for n in body_nodes:
+        if isinstance(n, ast.Assign) and len(n.targets) == 1 and isinstance(n.targets[0], ast.Name) and isinstance(n.value, (ast.Attribute, ast.Name)):
+            ps = _paths(n.value, alias, roots)
+            if len(ps) == 1:
+                alias[n.targets[0].id] = next(iter(ps))
+    out = []
+    for n in body_nodes:
+        if isinstance(n, ast.Assign):
+            for t in n.targets:
+                if isinstance(t, ast.Subscript) and ((isinstance(t.value, ast.Name) and t.value.id in tables) or (isinstance(t.value, ast.Attribute) and t.value.attr in tables and not (isinstance(t.value.value, ast.Name) and t.value.value.id == "self" and False))):
+                    keys = _paths(t.slice, alias, roots)
+                    reads: Set[Tuple[str, ...]] = set()
+                    for m in fn_node.body:
+                        reads |= _paths(m, alias, roots)
+                    # a read is determined by the key when a key path is a prefix of it; the table itself is not an input
+                    def covered(p):
+                        for k in keys:
+                            if p[: len(k)] == k:
+                                ef = eq_fields(k)
+                                if ef is None or len(p) == len(k) or any(p[len(k):][: len(e)] == e for e in ef):
+                                    return True
+                        return False
+
+                    free = sorted(p for p in reads if not covered(p) and not (len(p) >= 2 and p[-1] in tables))
+                    # a bare root (self) read only as the prefix of longer paths is not itself a read
+                    free = [p for p in free if len(p) > 1 or not any(q[:1] == p and len(q) > 1 for q in reads)]
+                    out.append((n, keys, free))
+    return out
+
+
+def cd_memo(prog: Program) -> RuleResult:
+    r = RuleResult("CD-MEMO", "a memo table in the class-diagram layer is keyed by everything the memoised value depends on", floor=0)
+    n_tables = 0
+    for m in prog.modules.values():
+        if ".class_diagrams" not in m.name:
+            continue
+        tables = set()
+        for st in m.tree.body:
+            tg = st.targets[0] if isinstance(st, ast.Assign) and len(st.targets) == 1 else getattr(st, "target", None)
+            val = getattr(st, "value", None)
+            if isinstance(tg, ast.Name) and val is not None and (isinstance(val, ast.Dict) or (isinstance(val, ast.Call) and isinstance(val.func, ast.Name) and val.func.id in ("dict", "defaultdict", "WeakKeyDictionary"))):
+                tables.add(tg.id)
+        for c in m.classes.values():
+            for st in c.node.body:
+                tg = st.targets[0] if isinstance(st, ast.Assign) and len(st.targets) == 1 else getattr(st, "target", None)
+                val = getattr(st, "value", None)
+                if isinstance(tg, ast.Name) and isinstance(val, ast.Dict) and "ClassVar" in src(getattr(st, "annotation", ast.Constant(""))):
+                    tables.add(tg.id)
+        if not tables:
+            continue
+        n_tables += len(tables)
+        for f in [f for f in prog.functions.values() if f.module is m]:
+            for node, keys, free in _memo_findings(f.node, tables, lambda path, f=f: _eq_fields(prog, f, path)):
+                r.check(not free, f"{f.short}#memo-key", site(f, node), src(node)[:100], f"the stored value reads only what the key {sorted('.'.join(k) for k in keys)} determines",
+                        f"{f.short} memoises under {sorted('.'.join(k) for k in keys)} but the value also depends on {['.'.join(p) for p in free]}: the first caller's "
+                        f"context is frozen for every later one - a second diagram resolves forward references against the first diagram's classes and loses its association edges")
+    r.note(f"{n_tables} hand-rolled memo tables in krrood.class_diagrams")
+    # positive control: the detector must flag a class-keyed memo whose value reads the diagram
+    ctl = ast.parse(
+        "def hints(self):\n    owner = self.clazz.clazz\n    if owner in _memo:\n        return _memo[owner]\n"
+        "    result = resolve(owner, self.clazz._class_diagram.wrapped_classes)\n    _memo[owner] = result\n    return result\n"
+    ).body[0]
+    got = _memo_findings(ctl, {"_memo"})
+    ok_ctl = ast.parse("def hints(self):\n    owner = self.clazz.clazz\n    _memo[owner] = resolve(owner.__name__)\n    return _memo[owner]\n").body[0]
+    r.control_ok = bool(got and got[0][2]) and not any(fr for _, _, fr in _memo_findings(ok_ctl, {"_memo"}))
+    return r
+
+
 def run(prog: Program, tier: str) -> List[RuleResult]:
-    return [wf_table(prog), cd_edges(prog), cd_readonly(prog)]
+    return [wf_table(prog), cd_edges(prog), cd_readonly(prog), cd_memo(prog)]
